@@ -85,3 +85,81 @@ ENTRIES = [
     V("C07-v-sac-commute", "C07", (SAC, "return reward + self.gamma * min_q_next * not_terminal", "bootstrap = not_terminal * min_q_next\n            return self.gamma * bootstrap + reward")),
     V("C07-v-or-order", "C07", (SAC, "(~done | timeout)", "(timeout | ~done)")),
 ]
+
+OFP = "lerax/algorithm/off_policy.py"
+RPB = "lerax/buffer/replay.py"
+BB = "lerax/buffer/base_buffer.py"
+MLP = "lerax/policy/actor_critic/mlp.py"
+UT = "lerax/utils.py"
+
+ENTRIES += [
+    # ---------------------------------------------------------------- C04
+    M("C04-store-clipped", "C04", "C04.2", (ONP, "                actions=action,", "                actions=clipped_action,")),
+    M("C04-logprob-second-call", "C04", "C04.2", (ONP, "                log_probs=log_prob,", "                log_probs=policy.action_and_value(state.policy_state, observation, key=transition_key, action_mask=action_mask)[3],")),
+    M("C04-reward-unclipped", "C04", "C04.3", (ONP, "state.env_state, clipped_action, next_env_state, key=reward_key", "state.env_state, action, next_env_state, key=reward_key")),
+    M("C04-transition-unclipped", "C04", "C04.3", (ONP, "            state.env_state, clipped_action, key=transition_key", "            state.env_state, action, key=transition_key")),
+    M("C04-done-term-only", "C04", "C04.4", (ONP, "        done = termination | truncation\n\n        # Bootstrap", "        done = termination\n\n        # Bootstrap")),
+    M("C04-boot-on-trunc", "C04", "C04.5", (ONP, "            truncation & ~termination,", "            truncation,")),
+    M("C04-boot-on-done", "C04", "C04.5", (ONP, "            truncation & ~termination,", "            done,")),
+    M("C04-boot-prestate-obs", "C04", "C04.5", (ONP, "env.observation(next_env_state, key=bootstrap_key)", "env.observation(state.env_state, key=bootstrap_key)")),
+    M("C04-boot-no-gamma", "C04", "C04.5", (ONP, "                + self.gamma\n                * policy.value(", "                + policy.value(")),
+    M("C04-boot-swapped", "C04", "C04.5", (ONP, "                )[1]\n            ),\n            lambda: reward,\n        )", "                )[1]\n            ),\n            lambda: reward,\n        ) if False else lax.cond(truncation & ~termination, lambda: reward, lambda: reward + self.gamma * policy.value(next_policy_state, env.observation(next_env_state, key=bootstrap_key))[1])")),
+    M("C04-policy-reset-trunc", "C04", "C04.6", (ONP, "            done, lambda: policy.reset(key=policy_reset_key), lambda: next_policy_state", "            truncation, lambda: policy.reset(key=policy_reset_key), lambda: next_policy_state")),
+    M("C04-env-reset-swapped", "C04", "C04.6", (ONP, "            done, lambda: env.initial(key=env_reset_key), lambda: next_env_state", "            done, lambda: next_env_state, lambda: env.initial(key=env_reset_key)")),
+    M("C04-mask-none", "C04", "C04.7", (ONP, "                action_masks=action_mask,", "                action_masks=None,")),
+    M("C04-mask-not-applied", "C04", "C04.7", (ONP, "state.policy_state, observation, key=action_key, action_mask=action_mask", "state.policy_state, observation, key=action_key")),
+    M("C04-obs-next", "C04", "C04.1", (ONP, "                observations=observation,", "                observations=env.observation(next_env_state, key=observation_key),")),
+    M("C04-values-stale", "C04", "C04.2", (ONP, "                values=value,", "                values=policy.value(next_policy_state, observation)[1],")),
+    M("C04-scan-len", "C04", "C04.8", (ONP, "scan_step, step_state, jr.split(key, self.num_steps)", "scan_step, step_state, jr.split(key, self.num_steps - 1)")),
+    M("C04-mlp-evaluate-nomask", "C04", "C04.9", (MLP, "        action_dist = self.action_head(features, action_mask=action_mask)\n        value = self.value_head(features)\n        log_prob = action_dist.log_prob(action)", "        action_dist = self.action_head(features)\n        value = self.value_head(features)\n        log_prob = action_dist.log_prob(action)")),
+    M("C04-mlp-logprob-mean", "C04", "C04.9", (MLP, "        return None, value, log_prob.sum().squeeze(), entropy", "        return None, value, log_prob.mean().squeeze(), entropy")),
+    M("C04-filter-cond-swapped", "C04", "C04.10", (UT, "lax.cond(pred, lambda: result_arrays[0], lambda: result_arrays[1])", "lax.cond(pred, lambda: result_arrays[1], lambda: result_arrays[0])")),
+    V("C04-v-done-order", "C04", (ONP, "        done = termination | truncation\n\n        # Bootstrap", "        done = truncation | termination\n\n        # Bootstrap")),
+    V("C04-v-boot-demorgan", "C04", (ONP, "            truncation & ~termination,", "            ~(termination | ~truncation),")),
+    V("C04-v-where", "C04", (ONP, "        bootstrapped_reward = lax.cond(\n            truncation & ~termination,\n            lambda: (", "        bootstrapped_reward = lax.cond(\n            ~termination & truncation,\n            lambda: (")),
+    # ---------------------------------------------------------------- C05
+    M("C05-reward-unclipped", "C05", "C05.2", (OFP, "            state.env_state, clipped_action, next_env_state, key=reward_key", "            state.env_state, action, next_env_state, key=reward_key")),
+    M("C05-nextobs-after-reset", "C05", "C05.1", (OFP, "        next_observation = env.observation(next_env_state, key=next_observation_key)\n\n        next_env_state = lax.cond(\n            done, lambda: env.initial(key=env_reset_key), lambda: next_env_state\n        )\n",
+       "        next_env_state = lax.cond(\n            done, lambda: env.initial(key=env_reset_key), lambda: next_env_state\n        )\n        next_observation = env.observation(next_env_state, key=next_observation_key)\n")),
+    M("C05-timeout-trunc", "C05", "C05.1", (OFP, "        timeout = truncation & ~termination", "        timeout = truncation")),
+    M("C05-done-timeout-swapped", "C05", "C05.1", (OFP, "            reward,\n            done,\n            timeout,\n            state.policy_state,", "            reward,\n            timeout,\n            done,\n            state.policy_state,")),
+    M("C05-store-clipped-action", "C05", "C05.1", (OFP, "            next_observation,\n            action,\n            reward,", "            next_observation,\n            clipped_action,\n            reward,")),
+    M("C05-obs-swapped", "C05", "C05.1", (OFP, "            observation,\n            next_observation,\n            action,", "            next_observation,\n            observation,\n            action,")),
+    M("C05-next-state-reset", "C05", "C05.1", (OFP, "            state.policy_state,\n            policy_state,\n        )", "            state.policy_state,\n            next_policy_state,\n        )")),
+    M("C05-warmup-len", "C05", "C05.4", (OFP, "scan_step, step_state, jr.split(key, self.learning_starts)", "scan_step, step_state, jr.split(key, self.learning_starts // self.num_envs)")),
+    M("C05-buffer-not-divided", "C05", "C05.5", (OFP, "                self.buffer_size // self.num_envs,", "                self.buffer_size,")),
+    M("C05-done-term", "C05", "C05.1", (OFP, "        done = termination | truncation\n        timeout", "        done = termination\n        timeout")),
+    M("C05-env-reset-trunc-only", "C05", "C05.3", (OFP, "            done, lambda: env.initial(key=env_reset_key), lambda: next_env_state", "            truncation, lambda: env.initial(key=env_reset_key), lambda: next_env_state")),
+    M("C05-no-warmup", "C05", "C05.4", (OFP, "            step_state = self.collect_learning_starts(\n                env, policy, step_state, callback, starts_key\n            )\n", "")),
+    V("C05-v-timeout-order", "C05", (OFP, "        timeout = truncation & ~termination", "        timeout = ~termination & truncation")),
+    V("C05-v-kwargs", "C05", (OFP, "            reward,\n            done,\n            timeout,\n            state.policy_state,\n            policy_state,\n        )", "            reward,\n            timeout=timeout,\n            done=done,\n            next_state=policy_state,\n            state=state.policy_state,\n        )")),
+    # ---------------------------------------------------------------- C06
+    M("C06-idx-size-1", "C06", "C06.1", (RPB, "idx = self.position % self.size", "idx = self.position % (self.size - 1)")),
+    M("C06-pos-plus2", "C06", "C06.1", (RPB, "new_position = self.position + 1", "new_position = self.position + 2")),
+    M("C06-swap-obs-repl", "C06", "C06", (RPB, "            new_position,\n            observations,\n            next_observations,", "            new_position,\n            next_observations,\n            observations,")),
+    M("C06-swap-where", "C06", "C06", (RPB, "            lambda rb: rb.dones,\n            lambda rb: rb.timeouts,", "            lambda rb: rb.timeouts,\n            lambda rb: rb.dones,")),
+    M("C06-mask-le", "C06", "C06.3", (RPB, "valid_mask = jnp.arange(self.size) < current_size\n", "valid_mask = jnp.arange(self.size) <= current_size\n")),
+    M("C06-replace-true", "C06", "C06.3", (RPB, "            replace=False,\n            p=probs,", "            replace=True,\n            p=probs,")),
+    M("C06-no-probs", "C06", "C06.3", (RPB, "            replace=False,\n            p=probs,", "            replace=False,")),
+    M("C06-mask-from-size", "C06", "C06.3", (RPB, "        return jnp.minimum(self.position, self.size)", "        return jnp.minimum(self.size, self.size)")),
+    M("C06-rewards-from-dones", "C06", "C06.2", (RPB, "rewards = self.rewards.at[idx].set(reward)", "rewards = self.dones.at[idx].set(reward)")),
+    M("C06-next-states-state", "C06", "C06.2", (RPB, "jax.tree.map(set_at_idx, self.next_states, next_state)", "jax.tree.map(set_at_idx, self.next_states, state)")),
+    M("C06-vector-mask-axis", "C06", "C06.4", (RPB, "current_size[..., None]).reshape(-1)", "current_size[None, ...]).reshape(-1)")),
+    M("C06-other-idx", "C06", "C06.1", (RPB, "dones = self.dones.at[idx].set(done)", "dones = self.dones.at[idx - 1].set(done)")),
+    M("C06-take-axis1", "C06", "C06.3", (RPB, "return jnp.take(x, batch_indices, axis=0)", "return jnp.take(x, batch_indices, axis=1)")),
+    M("C06-flatten-target-axes", ["C06", "C09"], ["C06.4", "C09.3"], (BB, "moved = jnp.moveaxis(x, axes, target_axes)", "moved = jnp.moveaxis(x, target_axes, axes)")),
+    V("C06-v-idx-temp", "C06", (RPB, "idx = self.position % self.size", "cap = self.size\n        idx = self.position % cap")),
+    V("C06-v-mask-flip", "C06", (RPB, "valid_mask = jnp.arange(self.size) < current_size\n", "valid_mask = current_size > jnp.arange(self.size)\n")),
+    # ---------------------------------------------------------------- C09
+    M("C09-trim-plus", "C09", "C09.1", (BB, "total_trim = total - (total % batch_size)", "total_trim = total + (total % batch_size)")),
+    M("C09-reshape-transposed", "C09", "C09.1", (BB, "return indices[:total_trim].reshape(-1, batch_size)", "return indices[:total_trim].reshape(batch_size, -1)")),
+    M("C09-gather-axis1", "C09", "C09.2", (BB, "return jax.tree.map(lambda x: jnp.take(x, indices, axis=0), self)", "return jax.tree.map(lambda x: jnp.take(x, indices, axis=1), self)")),
+    M("C09-gather-roll", "C09", "C09.2", (BB, "return jax.tree.map(lambda x: jnp.take(x, indices, axis=0), self)", "return jax.tree.map(lambda x: jnp.take(x, indices + x.ndim, axis=0), self)")),
+    M("C09-outer-key", "C09", "C09.4", (PPO, "                policy, opt_state, buffer, key=key\n            )\n            return (policy, opt_state), stats", "                policy, opt_state, buffer, key=jr.key(0)\n            )\n            return (policy, opt_state), stats")),
+    M("C09-gather-unflattened", "C09", "C09.4", (PPO, "batch = flat_buffer.gather(batch_indices)", "batch = rollout_buffer.gather(batch_indices)")),
+    M("C09-batch-size", "C09", "C09.4", (PPO, "self.batch_size = (self.num_steps * self.num_envs) // num_batches", "self.batch_size = self.num_steps // num_batches")),
+    M("C09-no-trim", "C09", "C09.1", (BB, "return indices[:total_trim].reshape(-1, batch_size)", "return indices[:batch_size * 2].reshape(-1, batch_size)")),
+    M("C09-two-perms", "C09", "C09.1", (BB, "indices = jnp.arange(total) if key is None else jr.permutation(key, total)", "indices = jnp.arange(total) if key is None else jr.permutation(key, total)[jr.permutation(key, total)] % total")),
+    M("C09-sample-replace", "C09", "C09.2", (RB, "indices = jr.choice(key, total, shape=(batch_size,), replace=False)", "indices = jr.choice(key, total, shape=(batch_size,), replace=True)")),
+    V("C09-v-trim-floor", "C09", (BB, "total_trim = total - (total % batch_size)", "total_trim = (total // batch_size) * batch_size")),
+]
